@@ -10,14 +10,14 @@ Check c20_monitor : forall r, mon_C20 r (handle r) = true.
 Print Assumptions c20_monitor.
 
 (* forwarded => not TLS, or the named host equals the SNI (case-insensitively, port ignored)
-   and the request is marked validated; a request naming no host is never marked validated *)
+   and the request is marked validated; a request naming no host is passed on untouched (this layer never sets the flag for it) *)
 Theorem c20_sound : forall r v,
   handle r = Forward v ->
   s_tls r = None \/
   exists n, s_tls r = Some (Some n) /\
     match spec_host r with
     | Some h => eq_ci h (auth_host n) = true /\ v = true
-    | None => v = false
+    | None => v = s_premarked r
     end.
 Proof. exact handle_forward_sound. Qed.
 Print Assumptions c20_sound.
@@ -28,6 +28,13 @@ Theorem c20_complete : forall r n h,
   handle r = Forward true.
 Proof. exact handle_never_rejects_equal. Qed.
 Print Assumptions c20_complete.
+
+(* a validated flag that is already set when the request arrives decides nothing for a request that names a host *)
+Theorem c20_premarked_irrelevant : forall (h2 : bool) (hh ua : option string) tls b1 b2,
+  (if h2 then orelse ua hh else hh) <> None ->
+  handle (mkSreq h2 hh ua tls b1) = handle (mkSreq h2 hh ua tls b2).
+Proof. exact handle_premarked_irrelevant. Qed.
+Print Assumptions c20_premarked_irrelevant.
 
 (* the comparison ignores the port and letter case *)
 Theorem c20_port_ignored : forall h port,
@@ -44,7 +51,7 @@ Proof. exact (conj eq_ci_refl (conj eq_ci_sym eq_ci_trans)). Qed.
 Print Assumptions c20_case_equivalence.
 
 Example c20_example :
-  handle (mkSreq false (Some "Example.COM:8443") None (Some (Some "example.com")))%string = Forward true
-  /\ handle (mkSreq true (Some "evil.test") None (Some (Some "example.com")))%string = RejectInvalid
-  /\ handle (mkSreq true (Some "evil.test") (Some "EXAMPLE.com") (Some (Some "example.com")))%string = Forward true.
+  handle (mkSreq false (Some "Example.COM:8443") None (Some (Some "example.com")) false)%string = Forward true
+  /\ handle (mkSreq true (Some "evil.test") None (Some (Some "example.com")) true)%string = RejectInvalid
+  /\ handle (mkSreq true (Some "evil.test") (Some "EXAMPLE.com") (Some (Some "example.com")) false)%string = Forward true.
 Proof. vm_compute. auto. Qed.
